@@ -5,10 +5,11 @@
    block by block, the K source packets followed by the requested repair packets.
    Only pinned statements, each closed by lemmas of Proofs/EncoderProofs.v.
 
-   K = lenN (sbe_syms e) is the number of source symbols, Kp = K' the extended count.  The window
-   computes `start + K'`, then `+ i`, and the ESI `K + start + i` in u32: in mode Checked an
-   overflow panics, in mode Release it wraps; statements that need "no wrap" carry the side condition
-   `Kp + s + n <= 2^32`. *)
+   K = lenN (sbe_syms e) is the number of source symbols.  [sbe_repair_packets] is the repaired
+   function: `assert!(K + start + packets <= 2^24)` (in u64) followed by the unchanged body, which
+   computes `start + K'`, then `+ i`, and the ESI `K + start + i` in u32.  The body alone is kept as
+   [sbe_repair_packets_pinned]: without the assert a window starting near 2^32 wraps in mode
+   Release and hands out source identifiers with foreign payloads (C18_pinned_refuted). *)
 From Coq Require Import NArith List Bool Lia.
 From RQ Require Import Base.Outcome Base.Ints Base.ListX Spec.Linear Spec.Layout
   Model.Octet Model.FieldFast Model.SysConst Model.Tuple Model.CMatrix Model.Layout Model.Slab
@@ -16,17 +17,28 @@ From RQ Require Import Base.Outcome Base.Ints Base.ListX Spec.Linear Spec.Layout
 Import ListNotations.
 Open Scope N_scope.
 
-(* a window of n packets starting at repair index s is the n single-packet requests (both modes,
-   no side condition: the chained u32 additions agree, wrapped or not) ... *)
+(* the repaired function is the id-space assert followed by the pinned body *)
+Theorem C18_repaired_iff : forall m e s n l,
+  sbe_repair_packets m e s n = Ok l <->
+  lenN (sbe_syms e) + s + n <= 16777216 /\ sbe_repair_packets_pinned m e s n = Ok l.
+Proof. exact repair_ok_iff. Qed.
+
+(* a window that reaches beyond the 24-bit id space is refused: both modes, also for n = 0 *)
+Theorem C18_beyond_id_space_refused : forall m e s n,
+  16777216 < lenN (sbe_syms e) + s + n -> sbe_repair_packets m e s n = Panic PAssert.
+Proof. exact repair_refused. Qed.
+
+(* a window of n packets starting at repair index s is the n single-packet requests (both modes) *)
 Theorem C18_window_is_singles : forall m e s n l, sbe_repair_packets m e s n = Ok l ->
   length l = N.to_nat n /\
   forall i d, i < n -> sbe_repair_packets m e (s + i) 1 = Ok [nth (N.to_nat i) l d].
 Proof. exact c18_window_is_singles. Qed.
 
-(* ... and conversely, when the window's own additions do not overflow (mode Release: always) *)
+(* ... and conversely, as soon as the window itself is inside the id space (the look-up
+   hypothesis only matters for n = 0, where there is no single request to witness K <= 56403) *)
 Theorem C18_singles_make_window : forall m e Kp s n l d,
   extended_source_block_symbols (lenN (sbe_syms e)) = Ok Kp ->
-  (m = Release \/ (Kp + s < 2 ^ 32 /\ Kp + s + n <= 2 ^ 32)) -> length l = N.to_nat n ->
+  lenN (sbe_syms e) + s + n <= 16777216 -> length l = N.to_nat n ->
   (forall i, i < n -> sbe_repair_packets m e (s + i) 1 = Ok [nth (N.to_nat i) l d]) ->
   sbe_repair_packets m e s n = Ok l.
 Proof. exact c18_singles_make_window. Qed.
@@ -36,31 +48,18 @@ Theorem C18_overlap_agree : forall m e s1 n1 l1 s2 n2 l2 i1 i2 d,
   sbe_repair_packets m e s1 n1 = Ok l1 -> sbe_repair_packets m e s2 n2 = Ok l2 ->
   i1 < n1 -> i2 < n2 -> s1 + i1 = s2 + i2 ->
   nth (N.to_nat i1) l1 d = nth (N.to_nat i2) l2 d.
-Proof. exact windows_agree. Qed.
+Proof. exact c18_overlap_agree. Qed.
 
-(* identifiers, any mode: (block number, (K + s + i) mod 2^32), and that value is below 2^24 *)
-Theorem C18_ids_mod : forall m e s n l, sbe_repair_packets m e s n = Ok l ->
-  forall i d, i < n ->
-    fst (nth (N.to_nat i) l d) = (sbe_id e, (lenN (sbe_syms e) + s + i) mod 2 ^ 32) /\
-    (lenN (sbe_syms e) + s + i) mod 2 ^ 32 < 16777216.
-Proof. exact c18_ids_mod. Qed.
-
-(* identifiers without wrap: packet i has id (sbe_id e, K + s + i); all distinct; all in
-   [K, 2^24), hence distinct from every source identifier *)
-Theorem C18_ids : forall m e Kp s n l,
-  extended_source_block_symbols (lenN (sbe_syms e)) = Ok Kp -> Kp + s + n <= 2 ^ 32 ->
-  sbe_repair_packets m e s n = Ok l ->
+(* identifiers, no side condition: an accepted window lies inside the id space, packet i has id
+   (sbe_id e, K + s + i); all distinct; all in [K, 2^24), hence distinct from every source
+   identifier *)
+Theorem C18_ids : forall m e s n l, sbe_repair_packets m e s n = Ok l ->
+  lenN (sbe_syms e) + s + n <= 16777216 /\
   map fst l = map (fun i => (sbe_id e, lenN (sbe_syms e) + s + i)) (rangeN (N.to_nat n)) /\
   NoDup (map fst l) /\
   Forall (fun p => fst (fst p) = sbe_id e /\ lenN (sbe_syms e) <= snd (fst p) < 16777216) l /\
   (forall src p q, sbe_source_packets e = Ok src -> In p l -> In q src -> fst p <> fst q).
 Proof. exact c18_ids. Qed.
-
-(* a window that starts at a valid ESI (K + s <= 2^24) and does not panic stays below 2^24: no
-   wrap can happen, whatever the mode *)
-Theorem C18_window_no_wrap : forall m e s n l, lenN (sbe_syms e) + s <= 16777216 ->
-  sbe_repair_packets m e s n = Ok l -> lenN (sbe_syms e) + s + n <= 16777216.
-Proof. exact c18_window_no_wrap. Qed.
 
 (* source packets: ids (sbe_id e, 0..K-1) in order, payloads the source symbols in order *)
 Theorem C18_source_ids : forall e l, sbe_source_packets e = Ok l ->
@@ -153,29 +152,42 @@ Example C18_example_producible :
   = Ok (true, true, [(0, 16777214); (0, 16777215)]).
 Proof. vm_compute. reflexivity. Qed.
 
-(* one past the last identifier: the PayloadId assert fires; in mode Checked a window whose start
-   leaves u32 panics even when no packet is requested *)
+(* one past the last identifier, and a start near 2^32 (also with no packet requested): refused
+   by the id-space assert in both modes *)
 Example C18_example_limits :
   (e <- ex_enc ;; sbe_repair_packets Checked e (16777216 - 13) 1)%outcome = Panic PAssert /\
-  (e <- ex_enc ;; sbe_repair_packets Checked e (2 ^ 32 - 18) 0)%outcome = Panic POverflow /\
-  (e <- ex_enc ;; sbe_repair_packets Release e (2 ^ 32 - 18) 0)%outcome = Ok [].
+  (e <- ex_enc ;; sbe_repair_packets Checked e (2 ^ 32 - 18) 0)%outcome = Panic PAssert /\
+  (e <- ex_enc ;; sbe_repair_packets Release e (2 ^ 32 - 18) 0)%outcome = Panic PAssert /\
+  (e <- ex_enc ;; sbe_repair_packets Release e (16777216 - 13) 0)%outcome = Ok [].
 Proof. vm_compute. repeat split; reflexivity. Qed.
 
-(* mode Release only: a window whose start wraps u32 hands out packets whose ESI (0, 1: source
-   identifiers) carries the Enc of ISI 5, 6, i.e. source symbols 5 and 6 -- not symbols 0 and 1.
-   (K = 13, K' = 18, s = 2^32 - 13: ESI = K + s + i mod 2^32 = i, ISI = s + K' + i mod 2^32 = 5 + i.)
-   This is why C18_ids and C01 carry the side condition Kp + s + n <= 2^32; with overflow checks
-   the same call panics. *)
-Example C18_example_release_alias :
+(* ---- the pinned (pre-repair) body ---- *)
+
+(* its identifiers in any mode: K + s + i reduced mod 2^32 *)
+Theorem C18_pinned_ids_mod : forall m e s n l, sbe_repair_packets_pinned m e s n = Ok l ->
+  forall i d, i < n ->
+    fst (nth (N.to_nat i) l d) = (sbe_id e, (lenN (sbe_syms e) + s + i) mod 2 ^ 32) /\
+    (lenN (sbe_syms e) + s + i) mod 2 ^ 32 < 16777216.
+Proof. exact pinned_ids_mod. Qed.
+
+(* the defect of the pinned code (confirmed on the crate, release profile): K = 13, K' = 18,
+   s = 2^32 - 13.  ESI = K + s + i mod 2^32 = i, ISI = s + K' + i mod 2^32 = 5 + i: mode Release
+   returns packets with the SOURCE identifiers (0, 0) and (0, 1) whose payloads are source symbols
+   5 and 6, not 0 and 1 (a decoder fed with them returns a wrong block); mode Checked panics with
+   an overflow; the repaired function refuses the window in both modes *)
+Theorem C18_pinned_refuted :
   (e <- ex_enc ;;
-   w <- sbe_repair_packets Release e (2 ^ 32 - 13) 2 ;;
+   w <- sbe_repair_packets_pinned Release e (2 ^ 32 - 13) 2 ;;
    Ok (map fst w,
+       vec_eqb (snd (nth 0 w ((0, 0), []))) (nth 0 (sbe_syms e) []),
+       vec_eqb (snd (nth 1 w ((0, 0), []))) (nth 1 (sbe_syms e) []),
        vec_eqb (snd (nth 0 w ((0, 0), []))) (nth 5 (sbe_syms e) []),
-       vec_eqb (snd (nth 1 w ((0, 0), []))) (nth 6 (sbe_syms e) []),
-       vec_eqb (snd (nth 0 w ((0, 0), []))) (nth 0 (sbe_syms e) [])))%outcome
-  = Ok ([(0, 0); (0, 1)], true, true, false) /\
-  (e <- ex_enc ;; sbe_repair_packets Checked e (2 ^ 32 - 13) 2)%outcome = Panic POverflow.
-Proof. vm_compute. split; reflexivity. Qed.
+       vec_eqb (snd (nth 1 w ((0, 0), []))) (nth 6 (sbe_syms e) [])))%outcome
+  = Ok ([(0, 0); (0, 1)], false, false, true, true) /\
+  (e <- ex_enc ;; sbe_repair_packets_pinned Checked e (2 ^ 32 - 13) 2)%outcome = Panic POverflow /\
+  (e <- ex_enc ;; sbe_repair_packets Release e (2 ^ 32 - 13) 2)%outcome = Panic PAssert /\
+  (e <- ex_enc ;; sbe_repair_packets Checked e (2 ^ 32 - 13) 2)%outcome = Panic PAssert.
+Proof. vm_compute. repeat split; reflexivity. Qed.
 
 (* the per-object list for 2 repair packets per block *)
 Example C18_example_object :
@@ -184,20 +196,21 @@ Example C18_example_object :
   = Ok (map (fun i => (0, i)) (rangeN 15)).
 Proof. vm_compute. reflexivity. Qed.
 
+Print Assumptions C18_repaired_iff.
+Print Assumptions C18_beyond_id_space_refused.
 Print Assumptions C18_window_is_singles.
 Print Assumptions C18_singles_make_window.
 Print Assumptions C18_overlap_agree.
-Print Assumptions C18_ids_mod.
 Print Assumptions C18_ids.
-Print Assumptions C18_window_no_wrap.
 Print Assumptions C18_source_ids.
 Print Assumptions C18_object_order.
 Print Assumptions C18_all_ids_producible.
 Print Assumptions C18_symbol_depends_only_on.
 Print Assumptions C18_enc_into_is_enc_indices.
 Print Assumptions C18_enc_into_ok_enc_indices.
+Print Assumptions C18_pinned_ids_mod.
+Print Assumptions C18_pinned_refuted.
 Print Assumptions C18_example_windows.
 Print Assumptions C18_example_producible.
 Print Assumptions C18_example_limits.
-Print Assumptions C18_example_release_alias.
 Print Assumptions C18_example_object.
